@@ -68,6 +68,9 @@ structure DemuxCfg where
   onlyPES : Bool := false
   exclude : List Nat := []
   noErr : Bool := false
+  /-- reader implementation name sent to the harness when it differs from the model kind's (e.g. a bufio.Reader with a
+  193-byte buffer is modelled by `.bufio`) -/
+  readerName : Option String := none
   deriving Inhabited
 
 def ReaderKind.name : ReaderKind → String
@@ -185,7 +188,7 @@ def demuxCase (bs : Bytes) (c : DemuxCfg) (calls : Option (List Call)) (spec : O
     | none => List.replicate (callsToEOF d0 c.packetAPI (bs.length / 188 + 8) 0 + 2) Call.next
   let (rs, final) := runCalls d0 c.packetAPI cs
   { op := "demux",
-    args := [("hex", jhex bs), ("size", jnat c.size), ("reader", jstr c.kind.name), ("chunks", jarr (c.chunks.map jnat)),
+    args := [("hex", jhex bs), ("size", jnat c.size), ("reader", jstr (c.readerName.getD c.kind.name)), ("chunks", jarr (c.chunks.map jnat)),
              ("fault", match c.fault with | some (pos, once) => jobj [("at", jnat pos), ("once", jbool once)] | none => "null"),
              ("skip", c.skipper.toJson), ("parser", jstr c.parser.name), ("api", jstr (if c.packetAPI then "packet" else "data")),
              ("calls", callsJson cs), ("view", jstr c.view.name), ("onlyPES", jbool c.onlyPES),
